@@ -21,7 +21,9 @@
 (* DOCUMENTS [j |-> "null"|"t"|"f"], [j |-> "n", c |-> number class],      *)
 (*         [j |-> "s", c |-> string class], [j |-> "a", e |-> <<J>>],       *)
 (*         [j |-> "o", m |-> <<[k |-> key, v |-> J]>>] (ordered, duplicates *)
-(*         allowed), [j |-> "x", c] (a token that is not JSON)             *)
+(*         allowed), [j |-> "x", c] (a token that is not JSON),            *)
+(*         [j |-> "xs", c] (a hole in the structure: nothing where a value  *)
+(*         must stand, e.g. after a trailing comma)                        *)
 (*                                                                         *)
 (* RESULT  [hard, soft, v]: hard = an error every implementation must      *)
 (*         report; soft = the document is not JSON but only inside a value *)
@@ -72,11 +74,18 @@ Opts == [num : {"none", "usenumber", "useint64"}, cs : BOOLEAN, duf : BOOLEAN, v
 
 \* ---- documents ----
 RECURSIVE HasX(_)
-HasX(J) == CASE J.j = "x" -> TRUE
+HasX(J) == CASE J.j \in {"x", "xs"} -> TRUE
              [] J.j = "s" -> J.c = "sctl"
              [] J.j = "a" -> \E i \in 1..Len(J.e) : HasX(J.e[i])
              [] J.j = "o" -> \E i \in 1..Len(J.m) : HasX(J.m[i].v)
              [] OTHER -> FALSE
+
+\* structural damage is never tolerated, wherever it is: the leniency for skipped values covers their content only
+RECURSIVE HasXS(_)
+HasXS(J) == CASE J.j = "xs" -> TRUE
+              [] J.j = "a" -> \E i \in 1..Len(J.e) : HasXS(J.e[i])
+              [] J.j = "o" -> \E i \in 1..Len(J.m) : HasXS(J.m[i].v)
+              [] OTHER -> FALSE
 
 Ok(v) == [hard |-> FALSE, soft |-> FALSE, v |-> v]
 Hard == [hard |-> TRUE, soft |-> FALSE, v |-> Nil]
@@ -302,5 +311,5 @@ DecStruct(T, fs, m, i, cur, o) ==
             IN [hard |-> h.hard \/ r.hard, soft |-> h.soft \/ r.soft, v |-> r.v]
 
 \* ---- the top-level call: Unmarshal(J, &dest) ----
-Unmarshal(T, J, old, o) == Dec(T, J, old, o)
+Unmarshal(T, J, old, o) == IF HasXS(J) THEN Hard ELSE Dec(T, J, old, o)
 =============================================================================
